@@ -85,7 +85,7 @@ GEN_SEQ_STAGES = [
     ("node_link", "polyply.src.gen_seq", "json_graph.node_link_data"),
 ]
 STAGES = {"gen_params": GEN_PARAMS_STAGES, "gen_coords": GEN_COORDS_STAGES, "gen_seq": GEN_SEQ_STAGES}
-PRIOR = ["absent", "present", "present_with_backups"]
+PRIOR = ["absent", "present", "present_with_backups", "empty"]      # empty: a zero-length file is at the path
 
 
 def enumerate_cases(tier, seed):
@@ -326,6 +326,8 @@ def _check(spec, ctx, other_tmp):
         gc.write_gro(target, [tuple(a) for a in ispec["coords"]["atoms"]], ispec["coords"]["box"])
         sentinel = target.read_bytes()
     elif prior != "absent":
+        if prior == "empty":
+            sentinel = b""
         target.write_bytes(sentinel)
     if prior == "present_with_backups":
         (outdir / f"#result{suffix}.1#").write_bytes(b"backup one\n")
@@ -496,7 +498,7 @@ def verify_success(program, target, before, after, prior, sentinel, suffix, outd
         if extra:
             raise Violation(f"{program}:stray_files", f"{sorted(extra)}")
         return
-    k = 1 if prior == "present" else 3
+    k = 1 if prior in ("present", "empty") else 3
     backup = f"#{name}.{k}#"
     if backup not in after:
         raise Violation(f"{program}:previous_file_not_backed_up", f"expected {backup}; directory holds {sorted(after)}")
